@@ -1,5 +1,5 @@
 (* C15 - error state, token validation and setters. *)
-From YV Require Import Prelude Generated GeneratedChecks Api.
+From YV Require Import Prelude Generated GeneratedChecks Api Faults.
 Local Open Scope Z_scope.
 
 Theorem C15_setters : forall o i x, (i < 6)%nat -> length (settings o) = 6%nat ->
@@ -39,3 +39,16 @@ Theorem C15_parse_codes : forall o na inv,
                             | Some _ => if inv then YAEP_INVALID_TOKEN_CODE else 0 end.
 Proof. reflexivity. Qed.
 Print Assumptions C15_parse_codes.
+
+(* a call of yaep_parse that ends in its error handler (a failing memory request, an invalid token) leaves the settings
+   of the object as they were: the one setting the library itself assigns during a parse (one_parse_p, cleared while all
+   parses are built for the cost flag) is saved before setjmp and written back by the handler *)
+Theorem C15_failed_parse_keeps_settings : forall (s locals s' : gsettings),
+  (forall f, In f settings_saved_before_setjmp -> locals f = s f) ->
+  (forall f, ~ In f settings_changed_during_parse -> s' f = s f) ->
+  forall f, after_handler settings_restored_by_handler locals s' f = s f.
+Proof.
+  intros s locals s'. apply (failed_parse_keeps_settings settings_changed_during_parse settings_saved_before_setjmp).
+  exact (proj1 parse_settings_kept).
+Qed.
+Print Assumptions C15_failed_parse_keeps_settings.
